@@ -27,6 +27,12 @@ type Interp struct {
 	MaxDepth int
 	globals  *activation
 	root     *scope
+	// Static visibility: the implementation resolves a name when it compiles the identifier, against the
+	// declarations compiled so far. useOrder numbers every identifier use and declOrder every
+	// declaration site in compile order; a use sees a declaration only if it was compiled before it.
+	useOrder  map[any]int
+	declOrder map[any]int
+	orderN    int
 	// frames mirrors the VM's call-frame stack (frame 0 = main code): used only to compute the dynamic
 	// tag of recorded finding D1 (a cell for a variable two or more function levels up is taken from the
 	// frame that many positions back on the CALL stack).
@@ -125,6 +131,36 @@ func (s *scope) lookup(name string) (*scope, any, bool) {
 	return nil, nil, false
 }
 
+// lookupAt resolves a name as the compiler does for the identifier use `use`: declarations that were
+// compiled after that use are invisible (an enclosing scope may declare the name later in the text).
+func (in *Interp) lookupAt(s *scope, name string, use any) (*scope, any, bool) {
+	uo, known := in.useOrder[use]
+	for c := s; c != nil; c = c.parent {
+		if k, ok := c.names[name]; ok {
+			if known {
+				if do, has := in.declOrder[k]; has && do > uo {
+					continue
+				}
+			}
+			return c, k, true
+		}
+	}
+	return nil, nil, false
+}
+
+func (in *Interp) cellAt(s *scope, name string, use any) (*cell, bool) {
+	sc, k, ok := in.lookupAt(s, name, use)
+	if !ok {
+		return nil, false
+	}
+	c := sc.act.cells[k]
+	if c == nil {
+		c = &cell{v: NilV{}}
+		sc.act.cells[k] = c
+	}
+	return c, true
+}
+
 func (s *scope) declare(name string, site any, v Value) {
 	s.names[name] = site
 	c := s.act.cells[site]
@@ -167,6 +203,9 @@ func (in *Interp) Start() {
 	in.globals = act
 	in.root = newScope(nil, act)
 	in.frames = []*activation{act}
+	in.useOrder = map[any]int{}
+	in.declOrder = map[any]int{}
+	in.orderN = 0
 }
 
 // RunPiece evaluates more top-level statements in the environment left by earlier pieces (the way a
@@ -174,12 +213,14 @@ func (in *Interp) Start() {
 // keeps the effects it had before failing.
 func (in *Interp) RunPiece(stmts []Stmt) (out Outcome, ok bool) {
 	act := in.globals
+	in.number(stmts)
 	// hoist the piece's top-level named functions (name exists, value nil until the declaration runs)
 	for _, st := range stmts {
 		if fd, isFd := st.(*FuncDecl); isFd {
 			if _, exists := in.root.names[fd.F.Name]; !exists {
 				in.root.declare(fd.F.Name, fd, unsetV{})
 			}
+			in.declOrder[fd] = -1 // hoisted: visible to everything in this and later pieces
 			in.root.consts[fd.F.Name] = true
 		}
 	}
@@ -281,7 +322,7 @@ func (in *Interp) exec(st Stmt, sc *scope) (Value, ctl) {
 			if s.Decl {
 				sc.declare(name, multiSite{s, i}, items[i])
 			} else {
-				cl, ok := sc.cellOf(name)
+				cl, ok := in.cellAt(sc, name, multiSite{s, i})
 				if !ok {
 					if in.LenientNames {
 						in.tag("undecided")
@@ -296,7 +337,7 @@ func (in *Interp) exec(st Stmt, sc *scope) (Value, ctl) {
 	case *Assign:
 		return in.execAssign(s, sc)
 	case *IncDec:
-		cl, ok := sc.cellOf(s.Name)
+		cl, ok := in.cellAt(sc, s.Name, s)
 		if !ok {
 			if in.LenientNames {
 				in.tag("undecided")
@@ -402,7 +443,7 @@ func (in *Interp) execAssign(s *Assign, sc *scope) (Value, ctl) {
 	binop := strings.TrimSuffix(s.Op, "=")
 	switch t := s.Target.(type) {
 	case *Ident:
-		cl, ok := sc.cellOf(t.Name)
+		cl, ok := in.cellAt(sc, t.Name, t)
 		if !ok {
 			if in.LenientNames {
 				in.tag("undecided")
@@ -726,10 +767,11 @@ func (in *Interp) eval(e Expr, sc *scope) Value {
 			default:
 				b.WriteString(Inspect(v))
 			}
+			in.cost(b.Len() / 8) // templates can double a string per evaluation
 		}
 		return b.String()
 	case *Ident:
-		if cl, ok := sc.cellOf(x.Name); ok {
+		if cl, ok := in.cellAt(sc, x.Name, x); ok {
 			if _, unset := cl.v.(unsetV); unset {
 				// a hoisted function name read before its declaration ran (possible after a failed REPL
 				// piece): the implementation holds an uninitialised slot there; not pinned
@@ -1338,7 +1380,7 @@ func (in *Interp) checkDeepCapture(fl *FuncLit, sc *scope) {
 		return
 	}
 	for _, name := range FreeNames(fl) {
-		dsc, _, ok := sc.lookup(name)
+		dsc, _, ok := in.lookupAt(sc, name, fl)
 		if !ok || dsc.act == in.globals {
 			continue
 		}
@@ -1424,4 +1466,205 @@ func (in *Interp) spawn(f Value, args []Value) *ThreadV {
 		t.Res = in.call(f, args)
 	})
 	return t
+}
+
+// number assigns compile-order numbers to identifier uses and declaration sites of more statements.
+// The order follows the compiler: an initialiser is compiled before its variable is declared; the
+// target name of an assignment is resolved before its value is compiled; range variables are declared
+// after the iterable and before the body; a nested named function's name is declared in the enclosing
+// scope after its body (inside the body its own name is a local of the function).
+func (in *Interp) number(stmts []Stmt) {
+	next := func() int { in.orderN++; return in.orderN }
+	var ws func(s Stmt)
+	var we func(e Expr)
+	wl := func(l []Stmt) {
+		for _, s := range l {
+			ws(s)
+		}
+	}
+	fn := func(f *FuncLit) {
+		// the literal as a whole is a "use" for the deep-capture check: everything declared before it is visible
+		in.useOrder[f] = next()
+		for _, p := range f.Params {
+			in.declOrder[paramKey{f, p.Name}] = next()
+			if p.Default != nil {
+				we(p.Default)
+			}
+		}
+		if f.Name != "" {
+			in.declOrder[paramKey{f, "\x00self"}] = next()
+		}
+		wl(f.Body)
+		// free-variable uses inside nested literals were numbered above; the deep-capture check looks names
+		// up as of the END of the literal's own text, so that names used anywhere inside it resolve
+		in.useOrder[f] = next()
+	}
+	we = func(e Expr) {
+		switch x := e.(type) {
+		case nil:
+		case *Ident:
+			in.useOrder[x] = next()
+		case *TemplateLit:
+			for _, p := range x.Parts {
+				if p.X != nil {
+					we(p.X)
+				}
+			}
+		case *Prefix:
+			we(x.X)
+		case *Paren:
+			we(x.X)
+		case *Binary:
+			we(x.L)
+			we(x.R)
+		case *InExpr:
+			we(x.X)
+			we(x.C)
+		case *Ternary:
+			we(x.C)
+			we(x.A)
+			we(x.B)
+		case *Index:
+			we(x.X)
+			we(x.I)
+		case *SliceE:
+			we(x.X)
+			we(x.Hi)
+			we(x.Lo)
+		case *Attr:
+			we(x.X)
+		case *MethodCall:
+			we(x.X)
+			for _, a := range x.Args {
+				we(a)
+			}
+		case *Call:
+			we(x.F)
+			for _, a := range x.Args {
+				we(a)
+			}
+		case *ListLit:
+			for _, a := range x.Items {
+				we(a)
+			}
+		case *MapLit:
+			for _, a := range x.Vals {
+				we(a)
+			}
+		case *SetLit:
+			for _, a := range x.Items {
+				we(a)
+			}
+		case *FuncLit:
+			fn(x)
+		case *IfExpr:
+			we(x.Cond)
+			wl(x.Then)
+			if x.ElseIf != nil {
+				we(x.ElseIf)
+			}
+			wl(x.Else)
+		case *SwitchExpr:
+			we(x.Subject)
+			// all case expressions are compiled before any case body
+			for _, c := range x.Cases {
+				for _, v := range c.Values {
+					we(v)
+				}
+			}
+			for _, c := range x.Cases {
+				if !c.Default {
+					wl(c.Body)
+				}
+			}
+			for _, c := range x.Cases {
+				if c.Default {
+					wl(c.Body)
+				}
+			}
+		case *Pipe:
+			for _, s := range x.Stages {
+				we(s)
+			}
+		}
+	}
+	ws = func(s Stmt) {
+		switch x := s.(type) {
+		case *ExprStmt:
+			we(x.X)
+		case *VarDecl:
+			we(x.X)
+			in.declOrder[x] = next()
+		case *MultiDecl:
+			we(x.X)
+			for i := len(x.Names) - 1; i >= 0; i-- {
+				if x.Decl {
+					in.declOrder[multiSite{x, i}] = next()
+				} else {
+					in.useOrder[multiSite{x, i}] = next()
+				}
+			}
+		case *Assign:
+			switch t := x.Target.(type) {
+			case *Ident:
+				in.useOrder[t] = next()
+				we(x.X)
+			default:
+				// index / attribute targets: compound forms read the target first, plain forms compile the value first
+				if x.Op != "=" {
+					we(x.Target)
+					we(x.X)
+				} else {
+					we(x.X)
+				}
+				we(x.Target)
+			}
+		case *IncDec:
+			in.useOrder[x] = next()
+		case *FuncDecl:
+			fn(x.F)
+			if _, hoisted := in.declOrder[x]; !hoisted {
+				in.declOrder[x] = next()
+			}
+		case *Return:
+			we(x.X)
+		case *For:
+			switch x.Kind {
+			case "three":
+				if x.Init != nil {
+					ws(x.Init)
+				}
+				we(x.Cond)
+				wl(x.Body)
+				if x.Post != nil {
+					ws(x.Post)
+				}
+			case "cond":
+				we(x.Cond)
+				wl(x.Body)
+			case "inf":
+				wl(x.Body)
+			default:
+				we(x.Iter)
+				if x.K != "" {
+					in.declOrder[forSite{x, 0}] = next()
+				}
+				if x.V != "" {
+					in.declOrder[forSite{x, 1}] = next()
+				}
+				wl(x.Body)
+			}
+		case *Defer:
+			we(x.Call)
+		}
+	}
+	// top-level function declarations of this piece are hoisted before anything is compiled
+	for _, s := range stmts {
+		if fd, ok := s.(*FuncDecl); ok {
+			if _, exists := in.declOrder[fd]; !exists {
+				in.declOrder[fd] = -1
+			}
+		}
+	}
+	wl(stmts)
 }
